@@ -15,8 +15,12 @@
 (*                  whatever was called in between                         *)
 (*   forms_agree    the call in these forms gives the values of the        *)
 (*                  canonical-form call (logged predicate, rtol 1e-12)     *)
+(*                  - this includes: a form that raises while the          *)
+(*                  canonical form of the same input is accepted           *)
 (*   schema         returned tables carry the documented schema            *)
-(*   no_exception   the call did not raise                                 *)
+(* A call that raises in its canonical form is outside the property (the   *)
+(* input may be meaningless, e.g. position fixes on the other side of the  *)
+(* planet); the program ends there and the evidence counts such calls.     *)
 (***************************************************************************)
 EXTENDS Api, Json, IOUtils
 
@@ -46,7 +50,7 @@ Step ==
          determ  == \A j \in 1..Len(e.res) : Lookup(reskeys[j]) \subseteq {e.res[j]}
          bad     == (IF notmod THEN {} ELSE {"not_modified"}) \cup (IF hidden THEN {} ELSE {"hidden_state"})
                     \cup (IF determ THEN {} ELSE {"deterministic"}) \cup (IF e.agree THEN {} ELSE {"forms_agree"})
-                    \cup (IF e.schema THEN {} ELSE {"schema"}) \cup (IF e.exc = "" THEN {} ELSE {"no_exception"})
+                    \cup (IF e.schema THEN {} ELSE {"schema"})
      IN /\ Call(f, args, e.forms, e.seed)
         /\ Len(e.res) = (IF e.exc = "" THEN Len(Table[f].res) ELSE 0) \/ e.exc # ""
         /\ failing' = failing \cup {<<b, l>> : b \in bad}
